@@ -5,7 +5,7 @@ import json
 from props.C01 import describe_list
 
 ID = "C02"
-PROP_FILES = ["Properties/C02.v", "Properties/C02_keywords.v"]
+PROP_FILES = ["Properties/C02.v", "Properties/C02_keywords.v", "Properties/C02_operands.v"]
 THEOREMS = ["C02_resolve_refines", "C02_resolve_total_on_documented", "C02_refuted_factor_order"]
 ASSUMPTIONS = [
     "term identity follows the implementation: ordered component lists (a:b and b:a differ, finding KF-C02-3)",
@@ -139,7 +139,11 @@ def gen(rng, tier):
               "y ~ (a + b)/(c + d)", "y ~ a:(b + c)", "y ~ (a + b):(c + d)", "y ~ a*b - a:b", "y ~ a*b - a",
               "y ~ (a + b + c)**2 - a:b", "y ~ x + (x|g) + (0 + z|g)", "y ~ (x*z|g)", "y ~ (x + z|g:h)",
               "y ~ a + a", "y ~ a:a", "y ~ a*a", "y ~ a/a", "y ~ a:b:a", "p(y, n) ~ x", "y['lvl'] ~ x", "y[lvl] ~ x",
-              "y ~ `a b`*c", "y ~ 'a'", "y ~ a + 2"]:
+              "y ~ `a b`*c", "y ~ 'a'", "y ~ a + 2",
+              # a '~' inside a back-quoted name or a string is not the formula's tilde: one-sided formulas keep their
+              # default intercept
+              "`pre~post`*c", "f(g, 'a~b') + a", "a + (a|`site~id`)", "0 + `y~x` + c", "`y~x`", "y ~ `pre~post` + a",
+              "a + b", "0 + a", "(a|g)", "a*b - 1"]:
         add(f, "fixed")
     n_rand = 50000 if tier == "thorough" else 3000
     for _ in range(n_rand):
@@ -400,7 +404,16 @@ def oracle(c):
     from formulae import model_description
     s = c["s"]
     try:
-        tree = Parser(Scanner(s).scan()).parse()
+        # the implicit intercept is inserted HERE, by the documented rule (after the formula's tilde token, or in front
+        # of a one-sided formula), not by the scanner under test: a '~' inside a quoted name or a string is no tilde
+        from formulae.token import Token
+        toks = list(Scanner(s).scan(add_intercept=False))
+        tildes = [i for i, t_ in enumerate(toks) if t_.kind == "TILDE"]
+        if len(tildes) > 1:
+            return None
+        at = tildes[0] + 1 if tildes else 0
+        toks = toks[:at] + [Token("NUMBER", "1", 1), Token("PLUS", "+")] + toks[at:]
+        tree = Parser(toks).parse()
     except Exception:
         return None  # not a formula at all (C01's business)
     # the specification is applied to the tree the DOCUMENTED grammar gives the text (left-associative levels
